@@ -27,7 +27,7 @@ import (
 func init() {
 	Register("replicas", runReplicas)
 	RegisterPlan(Plan{Prop: "C08", Engine: "replicas", Quick: 30, Thorough: 450, Level: "exploration", MinCases: 15,
-		Rule: "15 workload families (ledger default/slash/keys/power/queues/exit/invalid, oracle, oracle without the memory-tainting input classes, fees, authz, evmacct, live, live's unpriced-asset family, avs) x batches of 3-6 histories, each batch executed by 3 replica processes (GOMAXPROCS 16 / 1 / 3, time zones UTC / Asia/Kolkata / America/St_Johns, the third replica restarting the application object over the same database every 7 blocks where the family has no recorded restart finding); thorough adds a replica built with the race detector. Compared per step: transaction result code / gas wanted / gas used / data, validator updates, consensus-parameter updates, digest of all monitored stores, application hash of every block. Distinct = <family, replica environment> pairs whose traces were compared in full, plus the number of compared lines."})
+		Rule: "15 workload families (ledger default/slash/keys/power/queues/exit/invalid, oracle, oracle without the memory-tainting input classes, fees, authz, evmacct, live, live's unpriced-asset family, avs) x batches of 3-6 histories, each batch executed by 3 replica processes (GOMAXPROCS 16 / 1 / 3, time zones UTC / Asia/Kolkata / America/St_Johns, the second replica serving read-only dry runs (eth_call + eth_estimateGas, or the Simulate service) of every transaction before it is delivered, the third replica restarting the application object over the same database every 7 blocks where the family has no recorded restart finding); thorough adds a replica built with the race detector. Compared per step: transaction result code / gas wanted / gas used / data, validator updates, consensus-parameter updates, digest of all monitored stores, application hash of every block. Distinct = <family, replica environment> pairs whose traces were compared in full, plus the number of compared lines."})
 }
 
 type replicaFamily struct {
@@ -74,7 +74,7 @@ func runReplicas(j Job) *Result {
 	}
 	envs := []replicaEnv{
 		{name: "GOMAXPROCS=16,TZ=UTC", env: []string{"GOMAXPROCS=16", "TZ=UTC"}},
-		{name: "GOMAXPROCS=1,TZ=Asia/Kolkata", env: []string{"GOMAXPROCS=1", "TZ=Asia/Kolkata"}},
+		{name: "GOMAXPROCS=1,TZ=Asia/Kolkata,serves-dry-run-queries", env: []string{"GOMAXPROCS=1", "TZ=Asia/Kolkata", "VERIF_QUERY_NOISE=1"}},
 		{name: "GOMAXPROCS=3,TZ=America/St_Johns,restart-every-7-blocks", env: []string{"GOMAXPROCS=3", "TZ=America/St_Johns"}, restart: true},
 	}
 	raceBin := os.Getenv("VERIF_RACE_RUNNER")
@@ -142,6 +142,11 @@ func runReplicas(j Job) *Result {
 				}
 				traces[k] = tr
 				names[k] = e.name
+				if sub, err := ReadResult(rj.Out); err == nil {
+					for _, c := range []string{"dry-run-queries", "dry-run-queries-answered-ok"} {
+						res.Counters[c] += sub.Counters[c]
+					}
+				}
 			}(k, e)
 		}
 		wg.Wait()
